@@ -1,0 +1,38 @@
+//go:build verif
+
+package packet
+
+// govc contracts for this package (see /verif/DESIGN.md). This file is
+// comment-only: it compiles to nothing and is only read by the verifier.
+
+// ---------------------------------------------------------------- VarInt / VarLong (C05)
+
+//@ func (VarInt).WriteToBytes(v; buf) (res)
+//@   requires len(buf) >= leb32_len(uint32(v))
+//@   ensures res == leb32_len(uint32(v))                                             [@count]
+//@   ensures all(k, 0, 5, k < res ==> buf[k] == leb32_byte(uint32(v), k))           [@value]
+//@   modifies buf[0:leb32_len(uint32(v))]                                            [@frame]
+
+//@ func (VarInt).Len(v) (res)
+//@   ensures res == leb32_len(uint32(v))                                             [@count]
+//@   modifies nothing
+
+//@ func (VarInt).WriteTo(v; w) (n, err)
+//@   let wk = sink(w)
+//@   let l0 = old(Wlen(wk))
+//@   ensures err == nil ==> n == leb32_len(uint32(v)) && Wlen(wk) == l0 + n         [@count]
+//@   ensures err == nil ==> all(k, 0, 5, k < n ==> Wout(wk, l0+k) == leb32_byte(uint32(v), k))   [@value]
+//@   ensures Wfail(wk) ==> err != nil                                                [@errprop]
+//@   modifies sink(w)                                                                [@frame]
+
+//@ func (*VarInt).ReadFrom(v; r) (n, err)
+//@   let s = stream(r)
+//@   let p0 = old(Spos(s))
+//@   loop 0: unroll 7
+//@   ensures Spos(s) - p0 <= 5                                                       [@consume]
+//@   ensures n == Spos(s) - p0                                                       [@count]
+//@   ensures err == nil ==> leb32_run(Sinrow(s), p0) == n && uint32(*v) == leb32_val(Sinrow(s), p0, n)   [@value]
+//@   ensures leb32_run(Sinrow(s), p0) > 5 && !Sfail(s) ==> err != nil               [@value]
+//@   ensures leb32_run(Sinrow(s), p0) <= 5 && !Sfail(s) ==> err == nil              [@value]
+//@   ensures Sfail(s) ==> err != nil                                                 [@errprop]
+//@   modifies *v, stream(r)                                                          [@frame]
